@@ -1199,7 +1199,18 @@ def check_api_cover(ctx, fbs, rule):
         ctx.instance(rule, 'R-APICOVER %s @%s:%d' % (k[0], facts.rel(k[1]), k[2]), None)
         if v == 0 and k[0] not in API_EXEMPT:
             miss.append('%s (%s:%d)' % (k[0], facts.rel(k[1]), k[2]))
+    # the user-declared (non-template) members of the public classes: defined in some specialisation somewhere
+    mem = {}
+    for cfg, fb in fbs.items():
+        for k, v in fb.member_def.items():
+            mem[k] = max(mem.get(k, 0), v)
+    pubm = {k: v for k, v in mem.items() if k[0].startswith('yaclib::') and not k[0].startswith('yaclib::detail') and
+            '::when::' not in k[0] and '/include/yaclib/' in k[3] and '/fault/' not in k[3]}
+    for k, v in sorted(pubm.items()):
+        ctx.instance(rule, 'R-APICOVER %s::%s @%s:%d' % (k[0], k[1], facts.rel(k[3]), k[2]), None)
+        if not v and (k[0] + '::' + k[1]) not in API_EXEMPT:
+            miss.append('%s::%s (%s:%d)' % (k[0], k[1], facts.rel(k[3]), k[2]))
     if miss:
-        ctx.broken('R-APICOVER: public function templates that no analysed unit instantiates (add them to a probe): ' +
+        ctx.broken('R-APICOVER: public API entries that no analysed unit instantiates (add them to a probe): ' +
                    '; '.join(miss[:8]))
-    return len(pub)
+    return len(pub) + len(pubm)
